@@ -212,7 +212,7 @@ func main() {
 		"wall_s": time.Since(t0).Seconds(), "steps": sh.Steps, "max_path_steps": sh.MaxSteps, "pending": len(sh.work),
 		"leaks": sh.Leaks, "terms": numTerms(), "witnesses": sh.Witnesses, "functions": funcs,
 		"timed_out": sh.TimedOut, "aborted_vacuous": sh.Aborted, "map_sites": sh.MapSites, "solver": *z3bin,
-		"maporder": *mapOrder, "completed": sh.Completed, "argsets": conf.argstrs, "workers": *workers, "maxsteps": *maxSteps,
+		"maporder": *mapOrder, "stubs": sh.stubList(), "completed": sh.Completed, "argsets": conf.argstrs, "workers": *workers, "maxsteps": *maxSteps,
 	}
 	b, _ := json.MarshalIndent(out, "", " ")
 	if *outFile != "" {
@@ -271,6 +271,9 @@ func worker(conf *Config, sh *Shared, solver *Solver, maxFan int) {
 			sh.Decisions += len(ex.trace)
 			for f := range in.funcs {
 				sh.Funcs[f] = true
+			}
+			for f := range in.stubs {
+				sh.Stubs[f] = true
 			}
 			for k, v := range in.mapSites {
 				if v > sh.MapSites[k] {
